@@ -295,8 +295,9 @@ def dispatch_exhaustive(ctx, rule, disp_fn, method, required_mods=None):
         if k.endswith("::State::" + method):
             e = arg_expr(fn.body, t, 0)
             var = None
+            entry_variants = {v["name"] for v in prog.adts.get("rt::object::Entry", {"variants": []})["variants"]}
             for x in subexprs(e):
-                if x[0] == "as":
+                if x[0] == "as" and x[2] in entry_variants:
                     var = x[2]
             have[k] = (var, b)
     defined = sorted(k for k in prog.fns if k.endswith("::State::" + method) and k.startswith("rt::"))
